@@ -30,4 +30,32 @@ def global_state():
                         out[f"{name}.{n}()"] = repr((f.__defaults__, f.__kwdefaults__))[:3000]
                     except Exception:
                         pass
+    # process-global state outside the library's own modules that a call could leave changed
+    try:
+        import logging
+        import os
+        import warnings
+
+        import numpy as np
+
+        out["<numpy>.errstate"] = repr(sorted(np.geterr().items()))
+        out["<numpy>.printoptions"] = repr(sorted((k, str(v)) for k, v in np.get_printoptions().items()))
+        try:
+            from xarray.core.options import OPTIONS
+
+            out["<xarray>.options"] = repr(sorted((k, str(v)) for k, v in OPTIONS.items()))
+        except Exception:
+            pass
+        try:
+            import dask
+
+            out["<dask>.config"] = repr(sorted((k, str(v)[:200]) for k, v in dask.config.config.items()))
+        except Exception:
+            pass
+        out["<warnings>.filters"] = repr([(f[0], str(f[1]), getattr(f[2], "__name__", str(f[2])), str(f[3]), f[4]) for f in warnings.filters])[:3000]
+        out["<os>.cwd"] = os.getcwd()
+        out["<os>.environ"] = repr(sorted((k, v) for k, v in os.environ.items() if k != "VERIF_SCRATCH"))[:6000]
+        out["<logging>.root"] = f"{logging.root.level}|{len(logging.root.handlers)}|{logging.root.manager.disable}"
+    except Exception:
+        pass
     return out
